@@ -177,7 +177,10 @@ where
 
     // Prepare the default SolOut (wrapping user callback if provided)
     let n_states = y0.len();
-    let mut default_solout = DefaultSolOut::new(f, options.t_eval.clone(), options.dense_output, options.first_step, x0, n_states);
+    // The handler places the first output at x0 +/- first_step: use its magnitude (the solvers
+    // correct the sign themselves) and never aim beyond xend
+    let first_output_step = options.first_step.map(|h| h.abs().min((xend - x0).abs()));
+    let mut default_solout = DefaultSolOut::new(f, options.t_eval.clone(), options.dense_output, first_output_step, x0, n_states);
     #[cfg(feature = "verif-hooks")]
     default_solout.verif_reserve(8);
 
